@@ -542,3 +542,42 @@ def rule_serialised_leaves_bbs(ctx, cfg='prod-all', rule='RF-I'):
     ser = [i for i in prog.impls if i['self'] == 'bbsplus::commitment::BlindFactor' and i['trait'] and i['trait'].endswith('Serialize')]
     yield Ob(rule, 'bbsplus::commitment::BlindFactor#not-serialize', bf is not None and not ser, 'the blind factor type has no Serialize impl', bf['span'] if bf else '',
              fact=[i['trait'] for i in ser], expected='none')
+
+
+
+def rule_filled_buffers(ctx, cfg='prod-all', scope=('utils::', 'bbsplus::')):
+    """Octets of secret material are drawn by `fill_bytes(&mut buf)`: the generator fills exactly the octets the buffer *has* at that moment.  The
+    buffer is created with its final length (`vec![0; n]`, `[0u8; N]`), not with a capacity only, and its length is not changed afterwards - a buffer
+    that is empty when it is filled and resized afterwards holds zeros (`with_capacity(n)` .. `fill_bytes` .. `resize(n, 0)`)."""
+    prog, eng = ctx.prog(cfg), ctx.eng(cfg)
+    n = 0
+    for p, b in sorted(prog.bodies.items()):
+        if b.from_expansion or not p.startswith(scope) or '::tests::' in p:
+            continue
+        fd = eng.fndep(p)
+        for bi, t in b.calls():
+            if not (t.get('callee') or '').endswith('fill_bytes') or len(t['args']) < 2 or t['args'][1].get('k') not in ('copy', 'move'):
+                continue
+            n += 1
+            root = fd.base(t['args'][1]['pl']['l'])[0] if hasattr(fd, 'base') else t['args'][1]['pl']['l']
+            # through deref_mut / as_mut_slice of a Vec
+            for _ in range(4):
+                ds = fd.defs.get(root, [])
+                if len(ds) == 1 and ds[0][0] == 'call' and (ds[0][2].get('callee') or '').endswith(('deref_mut', 'as_mut_slice', 'as_mut', 'borrow_mut')) and ds[0][2]['args'] \
+                        and ds[0][2]['args'][0].get('k') in ('copy', 'move'):
+                    root = fd.base(ds[0][2]['args'][0]['pl']['l'])[0]
+                    continue
+                break
+            made = [((x.get('callee') or '').split('::')[-1] if kd == 'call' else x['rv'].get('k')) for kd, _b, x in fd.defs.get(root, [])]
+            sized = bool(made) and all(m in ('from_elem', 'repeat', 'agg', 'use') for m in made)
+            later = []
+            for bj, tj in b.calls():
+                if bj == bi or bj not in b.reachable(bi):
+                    continue
+                short = (tj.get('callee') or '').split('::')[-1]
+                if short in ('resize', 'push', 'extend', 'extend_from_slice', 'truncate', 'clear', 'resize_with', 'set_len', 'insert') and tj['args'] \
+                        and tj['args'][0].get('k') in ('copy', 'move') and fd.base(tj['args'][0]['pl']['l'])[0] == root:
+                    later.append(short)
+            yield Ob('RF-G1', '%s#filled-buffer:%d' % (p, n), sized and not later, 'the buffer has its final length when the generator fills it', '%s L%s' % (b.file(), t.get('line')),
+                     fact={'created_by': made, 'length_changed_afterwards_by': later}, expected='created with its length, not resized after the fill')
+    yield Ob('RF-G1', 'crate#filled-buffers', n >= 1, 'fill_bytes sites examined', '', fact=n, expected='>= 1', nontrivial=False)
